@@ -174,6 +174,7 @@ func (r *Registry) GetCounter(metricName string, labels prometheus.Labels, help 
 	var counterVec *prometheus.CounterVec
 	if vh == nil {
 		metricsCount.WithLabelValues("counter").Inc()
+		help = r.familyHelp(metricName, help)
 		counterVec = prometheus.NewCounterVec(prometheus.CounterOpts{
 			Name: metricName,
 			Help: help,
@@ -191,6 +192,7 @@ func (r *Registry) GetCounter(metricName string, labels prometheus.Labels, help 
 		return nil, err
 	}
 	r.StoreCounter(metricName, hash, labels, counterVec, counter, mapping.Ttl)
+	r.rememberHelp(metricName, help)
 
 	return counter, nil
 }
@@ -244,6 +246,7 @@ func (r *Registry) GetGauge(metricName string, labels prometheus.Labels, help st
 	var gaugeVec *prometheus.GaugeVec
 	if vh == nil {
 		metricsCount.WithLabelValues("gauge").Inc()
+		help = r.familyHelp(metricName, help)
 		gaugeVec = prometheus.NewGaugeVec(prometheus.GaugeOpts{
 			Name: metricName,
 			Help: help,
@@ -261,6 +264,7 @@ func (r *Registry) GetGauge(metricName string, labels prometheus.Labels, help st
 		return nil, err
 	}
 	r.StoreGauge(metricName, hash, labels, gaugeVec, gauge, mapping.Ttl)
+	r.rememberHelp(metricName, help)
 
 	return gauge, nil
 }
@@ -282,6 +286,7 @@ func (r *Registry) GetHistogram(metricName string, labels prometheus.Labels, hel
 	var histogramVec *prometheus.HistogramVec
 	if vh == nil {
 		metricsCount.WithLabelValues("histogram").Inc()
+		help = r.familyHelp(metricName, help)
 		buckets := r.Mapper.Defaults.HistogramOptions.Buckets
 		if mapping.HistogramOptions != nil && len(mapping.HistogramOptions.Buckets) > 0 {
 			buckets = mapping.HistogramOptions.Buckets
@@ -317,6 +322,7 @@ func (r *Registry) GetHistogram(metricName string, labels prometheus.Labels, hel
 		return nil, err
 	}
 	r.StoreHistogram(metricName, hash, labels, histogramVec, observer, mapping.Ttl)
+	r.rememberHelp(metricName, help)
 
 	return observer, nil
 }
@@ -338,6 +344,7 @@ func (r *Registry) GetSummary(metricName string, labels prometheus.Labels, help 
 	var summaryVec *prometheus.SummaryVec
 	if vh == nil {
 		metricsCount.WithLabelValues("summary").Inc()
+		help = r.familyHelp(metricName, help)
 		quantiles := r.Mapper.Defaults.SummaryOptions.Quantiles
 		if mapping != nil && mapping.SummaryOptions != nil && len(mapping.SummaryOptions.Quantiles) > 0 {
 			quantiles = mapping.SummaryOptions.Quantiles
@@ -383,8 +390,26 @@ func (r *Registry) GetSummary(metricName string, labels prometheus.Labels, help 
 		return nil, err
 	}
 	r.StoreSummary(metricName, hash, labels, summaryVec, observer, mapping.Ttl)
+	r.rememberHelp(metricName, help)
 
 	return observer, nil
+}
+
+// familyHelp returns the help string a new vector of metricName has to carry.
+// The client library refuses to gather a metric family whose members disagree
+// on the help string, so the first vector registered under a name decides.
+func (r *Registry) familyHelp(metricName, help string) string {
+	if metric, hasMetrics := r.Metrics[metricName]; hasMetrics && metric.Help != "" {
+		return metric.Help
+	}
+	return help
+}
+
+func (r *Registry) rememberHelp(metricName, help string) {
+	if metric, hasMetrics := r.Metrics[metricName]; hasMetrics && metric.Help == "" {
+		metric.Help = help
+		r.Metrics[metricName] = metric
+	}
 }
 
 func (r *Registry) RemoveStaleMetrics() {
